@@ -200,6 +200,29 @@ theorem slash_too_long (k : Nat) (a : Buf) (b p : Nat) :
   · unfold slash4; rw [if_pos h]
   · unfold slashBuf; rw [if_pos h]
 
+/-- `operator/` on the `int` it is given: exactly the prefix lengths `0 … W` produce a range, every other value
+    (negative ones included) is rejected with `std::logic_error` before any mask is computed -/
+theorem slash_domain (k : Nat) (a : Buf) (b : Nat) (p : Int) :
+    (slash4I b p = .logicError ↔ (p < 0 ∨ p > 32)) ∧ (slashBufI k a p = .logicError ↔ (p < 0 ∨ p > 8 * k)) := by
+  unfold slash4I slashBufI slash4 slashBuf
+  constructor
+  · by_cases hneg : p < 0
+    · simp [hneg]
+    · by_cases hbig : p.toNat > 32
+      · simp only [hneg, if_false, hbig, if_true, true_iff]; omega
+      · simp only [hneg, if_false, hbig, false_or]
+        constructor
+        · intro h; split at h <;> cases h
+        · intro h; omega
+  · by_cases hneg : p < 0
+    · simp [hneg]
+    · by_cases hbig : p.toNat > 8 * k
+      · simp only [hneg, if_false, hbig, if_true, true_iff]; omega
+      · simp only [hneg, if_false, hbig, false_or]
+        constructor
+        · intro h; split at h <;> cases h
+        · intro h; omega
+
 /-! ## contains -/
 
 /-- **contains_iff** (IPv4) -/
